@@ -93,6 +93,27 @@ pub fn run_c04(ctx: &Ctx, rep: &mut Report) {
             continue;
         }
         note_features(rep, &feat, &layout);
+        // one case in six: the file ends right after the last used byte (a partial final
+        // sector, which the crate accepts) when its last sector is the tail of a regular stream
+        let mut bytes = bytes;
+        let mut truncated = false;
+        if rng.chance(1, 6) {
+            if let Ok(img) = refparse::parse(&bytes) {
+                let last = img.nsect as u32 - 1;
+                let mut probs = Vec::new();
+                for e in img.entries.iter().filter(|e| e.obj_type == 2 && e.size >= 4096 && e.size % img.sector_len as u64 != 0) {
+                    let chain = img.chain(e.start, "stream", &mut probs);
+                    if chain.last() == Some(&last) {
+                        let keep = img.sector_off(last) + (e.size % img.sector_len as u64) as usize;
+                        bytes.truncate(keep);
+                        truncated = true;
+                        rep.count("layout.partial_final_sector");
+                        break;
+                    }
+                }
+            }
+        }
+        let open_buf = *rng.pick(&[None, None, Some(100usize), Some(1024), Some(1500), Some(4096)]);
         let h = fnv64(&bytes);
         let input_witness = |extra: Vec<(&str, J)>| {
             let mut v = vec![("layout", J::s(format!("{:?}", layout))), ("features", J::s(format!("{:?}", feat))), ("image_len", J::Int(bytes.len() as i128)), ("image_fnv64", J::s(format!("{h:016x}")))];
@@ -106,7 +127,7 @@ pub fn run_c04(ctx: &Ctx, rep: &mut Report) {
         let mut failed = false;
         for mode in [Mode::Strict, Mode::Permissive] {
             let r = guard::catch(|| -> Result<(), Fail> {
-                let mut sess = Session::open_bytes(bytes.clone(), mode, None, model.clone()).map_err(|e| (format!("open {:?} | rejected a valid layout", mode), format!("{e}")))?;
+                let mut sess = Session::open_bytes(bytes.clone(), mode, open_buf, model.clone()).map_err(|e| (format!("open {:?} | rejected a valid layout", mode), format!("{e}")))?;
                 sess.check_against_model(true).map_err(|w| (format!("open {:?} | content differs", mode), w))?;
                 // lookups under case variants must hit
                 let mut r2 = Rng::new(h);
@@ -145,7 +166,7 @@ pub fn run_c04(ctx: &Ctx, rep: &mut Report) {
             rep.sample(J::obj(vec![("layout", J::s(format!("{:?}", layout))), ("features", J::s(format!("{:?}", feat))), ("paths", J::Arr(model.all_paths().iter().take(12).map(|(p, _)| J::s(p.clone())).collect()))]));
         }
         // 2. mutate it afterwards with the C01/C02/C03 monitors attached
-        if big && ctx.quick() {
+        if (big && ctx.quick()) || truncated {
             continue;
         }
         let mode = if rng.chance(1, 2) { Mode::Strict } else { Mode::Permissive };
